@@ -53,6 +53,15 @@ def _flush():
             return d
     raise RuntimeError("C17 cache harness missing")
 
+def _dbg_protocol():
+    """the debugfs front-end (source harness/C03/dbg_protocol.c): pre-replay flush is a syncing one and precedes the replay"""
+    for h in _m.HARNESSES:
+        if h["name"] == "dbg_protocol":
+            d = dict(h)
+            d["src"] = "../C03/dbg_protocol.c"
+            return d
+    raise RuntimeError("C03 dbg_protocol harness missing")
+
 def _order():
     for h in _m.HARNESSES:
         if h["name"] == "order":
@@ -63,6 +72,7 @@ def _order():
 
 HARNESSES = [
     _order(),
+    _dbg_protocol(),
     _flush(),
     dict(name="syncdev", src="syncdev.c", funcs=["sync_blockdev", "getblk", "ll_rw_block"],
          unwind=4, backends=["default"],
